@@ -83,11 +83,12 @@ Definition fl (flag bit : Z) : bool := 0 <? Z.land flag bit.
 Definition p_step (t : pfs) (o : op) : pfs * pout :=
   let with_h (i : nat) (k : phandle -> pfs * pout) : pfs * pout :=
     match nth_error (phandles t) i with Some h => k h | None => (t, PNoSlot) end in
-  (* I/O goes to the regular file the handle is bound to *)
-  let with_file (i : nat) (k : phandle -> bytes -> option Z -> pfs * pout) : pfs * pout :=
+  (* I/O goes to the regular file the handle is bound to; on anything else it fails, and a closed
+     handle says "closed" first (unless the call is rejected for its negative offset before that) *)
+  let with_file (i : nat) (neg : bool) (k : phandle -> bytes -> option Z -> pfs * pout) : pfs * pout :=
     with_h i (fun h => match pinode t (pino h) with
                        | Some (IFile d pm) => k h d pm
-                       | _ => (t, PFail COther)
+                       | _ => if negb neg && pclosed h then (t, PFail CClosed) else (t, PFail COther)
                        end) in
   let seth (i : nat) (h : phandle) : pfs := set_phandle t i h in
   match o with
@@ -174,31 +175,31 @@ Definition p_step (t : pfs) (o : op) : pfs * pout :=
   | Chown p _ _ | Chtimes p _ =>
       match plookup t (normalize_path p) with Some _ => (t, PSucc) | None => (t, PFail CNotExist) end
   (* ---- handle I/O: the flat byte array of Model/ByteFile.v, per inode ---- *)
-  | HRead i n => with_file i (fun h d pm =>
+  | HRead i n => with_file i false (fun h d pm =>
       if pclosed h then (t, PFail CClosed) else
       let b := pread d (ppos h) (Z.to_nat n) in
       (seth i (mkPH (pino h) (ppos h + length b) (prdc h) false (pro h)), PData b ((0 <? n) && Nat.eqb (length b) 0)))
-  | HReadAt i n off => with_file i (fun h d pm =>
+  | HReadAt i n off => with_file i (off <? 0) (fun h d pm =>
       if off <? 0 then (t, PFail COther) else
       if pclosed h then (t, PFail CClosed) else
       let b := pread d (Z.to_nat off) (Z.to_nat n) in (t, PData b (zlen b <? n)))
-  | HWrite i b | HWriteString i b => with_file i (fun h d pm =>
+  | HWrite i b | HWriteString i b => with_file i false (fun h d pm =>
       if pclosed h then (t, PFail CClosed) else
       if pro h then (t, PFail COther) else
       (set_inode (seth i (mkPH (pino h) (ppos h + length b) (prdc h) false false)) (pino h) (IFile (pwrite d (ppos h) b) pm),
        PNum (length b)))
-  | HWriteAt i b off => with_file i (fun h d pm =>
+  | HWriteAt i b off => with_file i (off <? 0) (fun h d pm =>
       if off <? 0 then (t, PFail COther) else
       if pclosed h then (t, PFail CClosed) else
       if pro h then (t, PFail COther) else
       (set_inode t (pino h) (IFile (pwrite d (Z.to_nat off) b) pm), PNum (length b)))
-  | HSeek i off wh => with_file i (fun h d pm =>
+  | HSeek i off wh => with_file i false (fun h d pm =>
       if pclosed h then (t, PFail CClosed) else
       let target := if wh =? 0 then off else if wh =? 1 then Z.of_nat (ppos h) + off
                     else if wh =? 2 then zlen d + off else Z.of_nat (ppos h) in
       if target <? 0 then (t, PFail COther)
       else (seth i (mkPH (pino h) (Z.to_nat target) (prdc h) false (pro h)), PNum (Z.to_nat target)))
-  | HTruncate i n => with_file i (fun h d pm =>
+  | HTruncate i n => with_file i false (fun h d pm =>
       if pclosed h then (t, PFail CClosed) else
       if pro h then (t, PFail COther) else
       if n <? 0 then (t, PFail COther) else
